@@ -315,8 +315,22 @@ Definition qceil_abs (q : Q) : Z := (Z.abs (Qnum q) / Zpos (Qden q) + 1)%Z.
 Definition qabs_sum (a : N2) : Z := (qceil_abs (this (fst a)) + qceil_abs (this (snd a)))%Z.
 Definition mf_mag (m : nmf) : Z := fold_right (fun vm acc => (qabs_sum (snd vm) + acc)%Z) 0%Z m.
 Definition st_mag (st : nstate) : Z := fold_right (fun m acc => (mf_mag m + acc)%Z) 0%Z st.
-(* labelled tolerance: 2^-36 of the magnitude of everything that entered the computation *)
+(* labelled tolerance, PER VARIABLE: 2^-36 of (1 + the magnitudes of the messages of that variable that
+   entered the computation so far).  Natural parameters of different variables never mix, so a wide
+   variable (tiny eta) is not compared with the tolerance of a sharp one *)
 Definition eps : Q := 1 # 68719476736.
+Definition vmag := list (var * Z).
+Fixpoint vm_get (v : var) (a : vmag) : Z :=
+  match a with [] => 0%Z | (w, z) :: a' => if Nat.eqb w v then z else vm_get v a' end.
+Fixpoint vm_add1 (v : var) (z : Z) (a : vmag) : vmag :=
+  match a with
+  | [] => [(v, z)]
+  | (w, x) :: a' => if Nat.eqb w v then (w, (x + z)%Z) :: a' else (w, x) :: vm_add1 v z a'
+  end.
+Definition vm_add_mf (a : vmag) (m : nmf) : vmag :=
+  fold_left (fun acc vm => vm_add1 (fst vm) (qabs_sum (snd vm)) acc) m a.
+Definition vm_add_st (a : vmag) (st : nstate) : vmag := fold_left vm_add_mf st a.
+Definition tolv (a : vmag) (v : var) : Q := eps * inject_Z (1 + vm_get v a).
 Definition close (tol : Q) (a : N2) (b : Q * Q) : bool :=
   Qle_bool (Qabs (this (fst a) - fst b)) tol && Qle_bool (Qabs (this (snd a) - snd b)) tol.
 Fixpoint oget (v : var) (m : obs_mf) : option (Q * Q) :=
@@ -324,17 +338,16 @@ Fixpoint oget (v : var) (m : obs_mf) : option (Q * Q) :=
   | [] => None
   | (w, g) :: m' => if Nat.eqb w v then Some g else oget v m'
   end.
-(* same key set (lengths equal, every model key observed) and values within tol *)
-Definition mf_close (tol : Q) (m : nmf) (o : obs_mf) : bool :=
+(* same key set (lengths equal, every model key observed) and values within the variable's tolerance *)
+Definition mf_close (a : vmag) (m : nmf) (o : obs_mf) : bool :=
   Nat.eqb (length m) (length o)
-  && forallb (fun vm => match oget (fst vm) o with Some b => close tol (snd vm) b | None => false end) m.
-Fixpoint st_close (tol : Q) (st : nstate) (o : list obs_mf) : bool :=
+  && forallb (fun vm => match oget (fst vm) o with Some b => close (tolv a (fst vm)) (snd vm) b | None => false end) m.
+Fixpoint st_close (a : vmag) (st : nstate) (o : list obs_mf) : bool :=
   match st, o with
   | [], [] => true
-  | m :: st', om :: o' => mf_close tol m om && st_close tol st' o'
+  | m :: st', om :: o' => mf_close a m om && st_close a st' o'
   | _, _ => false
   end.
-Definition tol_of (mag : Z) : Q := eps * inject_Z (1 + mag).
 
 (* ---------- correspondence cases ---------- *)
 Inductive rdelta :=
@@ -372,8 +385,8 @@ Record rstep := {
 Definition overwrite (last new : nmf) : nmf :=
   map (fun vm => (fst vm, match get N2 (fst vm) new with Some x => x | None => snd vm end)) last.
 
-Definition raw_step (acc : nstate * nstate * bool) (s : rstep) : nstate * nstate * bool :=
-  let '(st, base0, ok) := acc in
+Definition raw_step (acc : nstate * nstate * vmag * bool) (s : rstep) : nstate * nstate * vmag * bool :=
+  let '(st, base0, vm0, ok) := acc in
   let base := if r_barrier s then st else base0 in
   let src := if r_stale s then base else st in
   let i := r_factor s in
@@ -387,7 +400,7 @@ Definition raw_step (acc : nstate * nstate * bool) (s : rstep) : nstate * nstate
              | S O => replace_nth i new st
              | _ => replace_nth i (overwrite (own N2 i st) new) st
              end in
-  let tol := tol_of (st_mag st + st_mag src + mf_mag new + st_mag st')%Z in
+  let tol := vm_add_mf (vm_add_mf vm0 new) (own N2 i st') in
   let good :=
     mf_close tol cavd (r_obs_cavity s)
     && mf_close tol (n_model_dist i src) (r_obs_model s)
@@ -395,7 +408,7 @@ Definition raw_step (acc : nstate * nstate * bool) (s : rstep) : nstate * nstate
     && mf_close tol (n_global st') (r_obs_global s)
     && (inplace || Bool.eqb (n_all_valid dl cavd last new) (r_obs_success s))
     && (inplace || Bool.eqb (n_updated_flag dl cavd last new) (r_obs_updated s)) in
-  (st', base, ok && good).
+  (st', base, tol, ok && good).
 
 Definition ofit := outcome N2.
 Record obs_entry := {
@@ -428,17 +441,17 @@ Fixpoint forall2b {A B} (p : A -> B -> bool) (a : list A) (b : list B) : bool :=
   | _, _ => false
   end.
 
-Fixpoint log_close (log : list (nat * hentry N2)) (o : list obs_entry) (mag0 : Z) : bool :=
+Fixpoint log_close (log : list (nat * hentry N2)) (o : list obs_entry) (vm0 : vmag) : bool :=
   match log, o with
   | [], [] => true
   | (i, e) :: log', oe :: o' =>
-      let tol := tol_of (mag0 + st_mag (h_state e))%Z in
+      let tol := vm_add_mf vm0 (own N2 i (h_state e)) in
       Nat.eqb i (o_factor oe)
       && Bool.eqb (h_success e) (o_success oe) && Bool.eqb (h_updated e) (o_updated oe)
       && opt_eqb Z.eqb (h_token e) (o_token oe)
       && mf_close tol (own N2 i (h_state e)) (o_msg oe)
       && mf_close tol (n_global (h_state e)) (o_global oe)
-      && log_close log' o' (mag0 + st_mag (h_state e))%Z
+      && log_close log' o' tol
   | _, _ => false
   end.
 
@@ -449,8 +462,8 @@ Definition access_ok (h : list (hentry N2)) (a : obs_access) : bool :=
   && opt_eqb Nat.eqb (previous_update N2 h) (a_previous_update a)
   && opt_eqb (opt_eqb Z.eqb) (latest_result N2 code_latest_result_first h) (a_latest_result a).
 
-Definition scripts_mag (scripts : list (list ofit)) : Z :=
-  fold_right (fun l acc => fold_right (fun o acc' => match o with OFit _ _ n => (mf_mag n + acc')%Z | ORaise => acc' end) acc l) 0%Z scripts.
+Definition scripts_vm (a : vmag) (scripts : list (list ofit)) : vmag :=
+  fold_left (fun acc l => fold_left (fun acc' o => match o with OFit _ _ n => vm_add_mf acc' n | ORaise => acc' end) l acc) scripts a.
 
 Inductive case :=
 (* an arbitrary factor graph with an arbitrary mean-field state, then a sequence of updates *)
@@ -472,24 +485,22 @@ Definition check_case (c : case) : bool :=
   match c with
   | CRaw init o0 g0 steps ofin =>
       let st0 := in_state init in
-      let tol0 := tol_of (st_mag st0) in
-      let '(stn, _, ok) := fold_left raw_step steps (st0, st0, true) in
-      st_close tol0 st0 o0 && mf_close tol0 (n_global st0) g0 && ok
-      && st_close (tol_of (st_mag st0 + st_mag stn
-                           + fold_right (fun s acc => mf_mag (in_mf (r_new s)) + acc) 0 steps)%Z) stn ofin
+      let vm0 := vm_add_st [] st0 in
+      let '(stn, _, vmn, ok) := fold_left raw_step steps (st0, st0, vm0, true) in
+      st_close vm0 st0 o0 && mf_close vm0 (n_global st0) g0 && ok && st_close vmn stn ofin
   | CDecl priors fs include pf o0 c0 rd order max_steps stop scripts olog ofin oacc groups ogroups =>
       let pri := in_mf priors in
       let st0 := init_state N2 n_scale code_counts_occurrences include fs pf pri n_zero in
-      let tol0 := tol_of (st_mag st0 + mf_mag pri)%Z in
+      let vm0 := vm_add_mf (vm_add_st [] st0) pri in
       let sc := map (map in_outcome) scripts in
       let dl := delta_of rd st0 in
       let '(stn, log) := run N2 n_add n_opp n_scale n_valid max_steps dl sc stop order st0 [] in
-      let mag := (st_mag st0 + mf_mag pri + scripts_mag sc)%Z in
+      let vm1 := scripts_vm vm0 sc in
       (negb include || pf_ok fs pf)
-      && st_close tol0 st0 o0
-      && st_close tol0 (map (fun i => n_cavity i st0) (seq 0 (length st0))) c0
-      && log_close log olog mag
-      && st_close (tol_of (mag + st_mag stn)%Z) stn ofin
+      && st_close vm0 st0 o0
+      && st_close vm0 (map (fun i => n_cavity i st0) (seq 0 (length st0))) c0
+      && log_close log olog vm1
+      && st_close (fold_left (fun a e => vm_add_mf a (own N2 (fst e) (h_state (snd e)))) log vm1) stn ofin
       && forall2b (fun i a => access_ok (history_of N2 i log) a) (seq 0 (length st0)) oacc
       && list_eqb (opt_eqb (list_eqb (opt_eqb Z.eqb)))
            (map (fun g => latest_results N2 code_latest_result_first g log) groups) ogroups
